@@ -2,6 +2,7 @@ package main
 
 import (
 	"bytes"
+	"errors"
 	"fmt"
 	"sync"
 	"net/netip"
@@ -17,6 +18,7 @@ import (
 	"github.com/netsampler/goflow2/v2/producer"
 	protoproducer "github.com/netsampler/goflow2/v2/producer/proto"
 	"github.com/netsampler/goflow2/v2/utils"
+	"github.com/netsampler/goflow2/v2/utils/debug"
 	"gopkg.in/yaml.v3"
 
 	"verifharness/internal/canon"
@@ -25,6 +27,7 @@ import (
 func init() {
 	ops["cfg"] = opCfg
 	ops["pipe"] = opPipe
+	ops["pipew"] = opPipeW
 	ops["pkt"] = opPkt
 	ops["poison"] = opPoison
 	ops["stage"] = opStage
@@ -207,6 +210,8 @@ type pipeEntry struct {
 	pipe utils.FlowPipe
 	cap  *captureFormat
 	prod producer.ProducerInterface
+	// wired with the panic wrappers of main.go
+	wrapped bool
 }
 
 // poison <pid> <n>: Commit() n fully populated messages into the producer's message pool, so that
@@ -260,6 +265,16 @@ func opPoison(st *state, args []string) []string {
 	return []string{"res ok"}
 }
 
+// pipew: the pipe as cmd/goflow2/main.go wires it — the producer behind debug.WrapPanicProducer, the decoder function
+// behind debug.PanicDecoderWrapper: a panic of conversion or dissection is recovered and comes back as an error
+func opPipeW(st *state, args []string) []string {
+	wrapNext = true
+	defer func() { wrapNext = false }()
+	return opPipe(st, args)
+}
+
+var wrapNext bool
+
 func opPipe(st *state, args []string) []string {
 	if len(args) != 3 {
 		return []string{"bad-op"}
@@ -275,6 +290,10 @@ func opPipe(st *state, args []string) []string {
 	prod, err := protoproducer.CreateProtoProducer(cfg, protoproducer.CreateSamplingSystem)
 	if err != nil {
 		return []string{resErr(err)}
+	}
+	wrapped := wrapNext
+	if wrapped {
+		prod = debug.WrapPanicProducer(prod)
 	}
 	capf := &captureFormat{}
 	// the `flow` (auto) pipe is wired as cmd/goflow2/main.go wires it: Prometheus-instrumented template
@@ -296,7 +315,7 @@ func opPipe(st *state, args []string) []string {
 	default:
 		return []string{"bad-op"}
 	}
-	st.extra["pipe:"+args[0]] = &pipeEntry{p, capf, prod}
+	st.extra["pipe:"+args[0]] = &pipeEntry{pipe: p, cap: capf, prod: prod, wrapped: wrapped}
 	return []string{"res ok"}
 }
 
@@ -335,8 +354,16 @@ func opPkt(st *state, args []string) []string {
 				lines = append([]string{fmt.Sprintf("res panic n=%d # %v", countMsgs(pe.cap.lines), r)}, pe.cap.resolve(pe.cap.lines)...)
 			}
 		}()
-		err := pe.pipe.DecodeFlow(msg)
-		res := classify(err) + fmt.Sprintf(" n=%d", countMsgs(pe.cap.lines))
+		decode := utils.DecoderFunc(pe.pipe.DecodeFlow)
+		if pe.wrapped {
+			decode = debug.PanicDecoderWrapper(decode)
+		}
+		err := decode(msg)
+		cls := classify(err)
+		if err != nil && errors.Is(err, debug.PanicError) {
+			cls = "res err:recovered"
+		}
+		res := cls + fmt.Sprintf(" n=%d", countMsgs(pe.cap.lines))
 		if err != nil {
 			res += " # " + strings.ReplaceAll(err.Error(), "\n", " | ")
 		}
